@@ -52,10 +52,10 @@ var props = []*prop{
 	},
 	{
 		ID: "C07", Binary: "simcore", Quick: 3000, Thorough: 60000, RunWall: 180 * time.Second,
-		Variants: []variant{{Scenario: "c07", Weight: 1}},
+		Variants: []variant{{Scenario: "c07", Weight: 4}, {Scenario: "c07w", Weight: 1}},
 		Real:     []string{"tars/transport: TarsServer + tcpHandler receive loop and TarsClient receive loop (instrumented)", "tars/protocol.TarsRequest / TarsProtocol.ParsePackage and SetMaxPackageLength (real)", "tars/util/gpool (server worker pool in some runs)"},
 		Stub:     append([]string{netStub, "protocol layer above the framing -> recording ServerProtocol.Invoke / ClientProtocol.Recv", "peers -> scripted raw writers"}, commonStub...),
-		Rule:     "one case = one simulated run: 1-3 connections into a real TarsServer and 1-2 real TarsClients, each fed a tape-drawn sequence of 1-12 frames (lengths 4, 5, small, around 4096 and 8192, max-1, max) optionally followed by an illegal length prefix (0-3, max+1, huge) and further frames; the stream is written in tape-drawn chunks (single bytes, cuts inside the prefix, large chunks, pauses) and read in tape-drawn fragments; maximum package length 64/1000/4096/10MiB, server pool 0/1/3; in the echoing-server variant the client reads slowly so that the server's write time-out strikes inside a response; distinct = distinct (event-log hash, switch trace hash); non-trivial = at least one preemption, stall or fired fault",
+		Rule:     "one case = one simulated run: 1-3 connections into a real TarsServer and 1-2 real TarsClients, each fed a tape-drawn sequence of 1-12 frames (lengths 4, 5, small, around 4096 and 8192, max-1, max) optionally followed by an illegal length prefix (0-3, max+1, huge) and further frames; the stream is written in tape-drawn chunks (single bytes, cuts inside the prefix, large chunks, pauses) and read in tape-drawn fragments; maximum package length 64/1000/4096/10MiB, server pool 0/1/3; in the echoing-server variant the client reads slowly so that the server's write time-out strikes inside a response; pool queue capacity 1-1000; every fifth run is the client-sender variant (2-11 packets of 8 B-150 KB through a real TarsClient to a peer that breaks 0-3 connections after drawn byte counts); distinct = distinct (event-log hash, switch trace hash); non-trivial = at least one preemption, stall or fired fault",
 	},
 	{
 		ID: "C08", Binary: "simcore", Quick: 6000, Thorough: 120000, RunWall: 120 * time.Second,
@@ -115,17 +115,17 @@ var props = []*prop{
 	},
 	{
 		ID: "C19", Binary: "simcore", Quick: 6000, Thorough: 120000, RunWall: 60 * time.Second,
-		Variants: []variant{{Scenario: "c19", Weight: 4}, {Scenario: "c19s", Weight: 1}},
+		Variants: []variant{{Scenario: "c19", Weight: 4}, {Scenario: "c19s", Weight: 2}},
 		Real:     []string{"tars/util/gpool (instrumented from the working tree)", "every fifth run: tars/transport TarsServer + tcpHandler handing requests to the pool (MaxInvoke 1-4, queue capacity 1-1000)"},
 		Stub:     commonStub,
-		Rule:     "one case = one simulated run: tape-drawn pool size 1-4, queue capacity 0-4, 1-3 submitters, 1-12 jobs with drawn durations, release none/idle/busy, under a tape-drawn schedule; every fifth run instead drives the pool through a real TarsServer (MaxInvoke 1-4, small queue, 1-3 raw clients sending bursts of requests with drawn handler durations over TCP or UDP, a third of the TCP runs with a graceful Shutdown while requests are queued) and checks the bound and exactly-once on the invocations of every request the server read; distinct = distinct (event-log hash, context-switch trace hash); non-trivial = at least one preemption, stall or fired fault",
+		Rule:     "one case = one simulated run: tape-drawn pool size 1-4, queue capacity 0-4, 1-3 submitters, 1-12 jobs with drawn durations, release none/idle/busy, under a tape-drawn schedule; every third run instead drives the pool through a real TarsServer (MaxInvoke 1-4, small queue, 1-3 raw clients sending bursts of requests with drawn handler durations over TCP or UDP, a third of the runs with a graceful Shutdown while requests are queued or datagrams keep arriving) and checks the bound and exactly-once on the invocations of every request the server read; distinct = distinct (event-log hash, context-switch trace hash); non-trivial = at least one preemption, stall or fired fault",
 	},
 	{
 		ID: "C20", Binary: "simcore", Quick: 5000, Thorough: 100000, RunWall: 60 * time.Second,
 		Variants: []variant{{Scenario: "c20", Weight: 1}},
 		Real:     []string{"tars/util/rogger (instrumented; queue and flusher recreated inside the bubble by an overlay shim)", "tars.CheckPanic (panic-exit variant)"},
 		Stub:     append([]string{"LogWriter -> recording writer", "os.Exit -> simrt.Exit (records and ends the run)"}, commonStub...),
-		Rule:     "one case = one simulated run: 1-4 logging goroutines x 1-6 entries through WriteLog/Debugf/Info/Trace, 1-2 writers (a logger may be given another writer after a drawn number of calls; in some runs a size-rolling file writer whose files are read back), queue capacity 1-10000, flush (or panic-triggered exit, with one or two panicking goroutines) after a drawn number of returned log calls, under a tape-drawn schedule incl. the case order of every select; distinct = distinct (event-log hash, switch trace hash); non-trivial = at least one preemption or fired fault",
+		Rule:     "one case = one simulated run: 1-4 logging goroutines x 1-6 entries through WriteLog/Debugf/Info/Trace/DyeingInfof, 1-2 writers (a logger may be given another writer after a drawn number of calls; in some runs a size-rolling file writer whose files are read back), queue capacity 1-10000, flush (or panic-triggered exit, with one or two panicking goroutines) after a drawn number of returned log calls, under a tape-drawn schedule incl. the case order of every select; distinct = distinct (event-log hash, switch trace hash); non-trivial = at least one preemption or fired fault",
 	},
 }
 
